@@ -2164,8 +2164,9 @@ pub(crate) mod verif_hooks {
         }
     }
 
-    /// Print the IR, parse the text back, check that the re-parsed module prints to the same text
-    /// and verifies, and hand back the re-parsed module so that compilation continues from it.
+    /// Print the IR, parse the text back, check that the re-parsed module verifies, and hand back
+    /// the re-parsed module so that compilation continues from it. (Textual identity of a second
+    /// print is not checked: value names are derived from internal slot keys.)
     pub(crate) fn ir_roundtrip<'eng>(
         handler: &Handler,
         ir: sway_ir::Context<'eng>,
@@ -2180,20 +2181,6 @@ pub(crate) mod verif_hooks {
         let text = sway_ir::printer::to_string_with_metadata(&ir, true);
         let reparsed = sway_ir::parser::parse(&text, se, ir.experimental, ir.backtrace)
             .map_err(|e| fail(format!("parse error: {e}")))?;
-        let text2 = sway_ir::printer::to_string_with_metadata(&reparsed, true);
-        if text != text2 {
-            let line = text
-                .lines()
-                .zip(text2.lines())
-                .position(|(a, b)| a != b)
-                .unwrap_or(0);
-            return Err(fail(format!(
-                "re-printed text differs at line {}: {:?} vs {:?}",
-                line + 1,
-                text.lines().nth(line).unwrap_or(""),
-                text2.lines().nth(line).unwrap_or("")
-            )));
-        }
         reparsed
             .verify()
             .map_err(|e| fail(format!("re-parsed module does not verify: {e}")))?;
